@@ -25,6 +25,7 @@ Oracle from ground truth (independent parser of the files on disk):
    version as it was before the repair, the version it reads sits on N distinct share numbers on
    disk, and a fresh verify=True check finds no damaged share.
 """
+import gc
 import itertools
 
 from .. import boot, common, grid, lib_imm, lib_mut
@@ -350,6 +351,7 @@ def _execute(case, prefix, seed):
 
 def chunk(cases, seed, d_bound):
     res = common.Result()
+    gc.freeze()      # forked worker: keep the collector off the pages inherited from the parent
     for case in cases:
         gate = {}
 
